@@ -33,7 +33,9 @@ pub fn check(rec: &RunRecord, reg: &Reg, cells: &mut Cells) -> Vec<Finding> {
         let (ds, _) = deliveries(&op.events, 0);
         walk(&ds, &mut |d: &Delivery| {
             let Some(e) = reg.get(d.cid()) else { return };
-            if !e.spec.custom_chain {
+            // (contracts on the custom chain, and contracts that spell out the empty custom types
+            // and bridge an interface into them)
+            if !e.spec.custom_chain && !e.spec.parts.iter().any(|p| p.custom_msg || p.custom_query) {
                 return;
             }
             let enters = d.enters();
